@@ -1,8 +1,8 @@
 (* C19 - A deployed binary is a faithful, runnable, self-propagating copy.
    Statements only, each closed by [exact]; the proofs are in Proofs/LEProofs.v, ExeNoPanic.v,
    ElfProofs.v, PeProofs.v.  Model: Model/LE.v, Elf.v, Pe.v (exe_utils.rs on byte lists). *)
-From RJ Require Import Base.Prelude Model.LE Model.Elf Model.Pe Model.ExeWitness Gen.Facts.
-From RJ Require Import Proofs.LEProofs Proofs.ExeLemmas Proofs.ExeNoPanic Proofs.ExeWitnessProofs Proofs.ElfProofs Proofs.PeProofs Proofs.ExeExamples.
+From RJ Require Import Base.Prelude Model.LE Model.Elf Model.Pe Model.ExeWitness Model.DeployFile Gen.Facts.
+From RJ Require Import Proofs.LEProofs Proofs.ExeLemmas Proofs.ExeNoPanic Proofs.ExeWitnessProofs Proofs.ElfProofs Proofs.PeProofs Proofs.ExeExamples Proofs.DeployFileProofs.
 From Coq Require Import String.
 Local Open Scope N_scope.
 
@@ -165,8 +165,54 @@ Example C19_example_pe :
               extract_pe Debug e' w_name = Ok []).
 Proof. exact example_pe. Qed.
 
+(* ---------------------------------------------------------------------------------------------
+   "The binary that deployment places on a remote starts": the permission-bit side of it
+   (Model/DeployFile.v).  After the steps of a deployment to a unix remote - upload with scp, chmod +x,
+   launch - the program file has the owner's x bit and the launch starts it: for both ways of staging
+   the binary (a copy of the running program / a generated big binary written as a new 0o666 file),
+   every mode of the running program, every umask of the boss, a remote file that is new or replaces
+   an existing one of any mode, as owner or as root; the only premise is that the remote umask does
+   not mask the owner's x bit.  That the steps are those of the code, that the staged file has the
+   modelled mode and that scp/chmod/exec behave as modelled is the differential run against the
+   fake remote (tools/deploy_lib.py), not a theorem. *)
+Theorem C19_deployed_file_executable :
+  forall (native root : bool) (self_mode bumask rumask : N) (existing : option N),
+  N.testbit rumask 6 = false ->
+  deploy_file false native root self_mode bumask rumask existing =
+    mkWorld (Some (chmod_plus_x (scp_mode existing (staged_mode (choose_staging native) self_mode bumask) rumask) rumask))
+            (Some true).
+Proof. exact deployed_file_starts. Qed.
+
+Theorem C19_deploy_steps : deploy_steps false = [SScp; SChmod; SLaunch] /\ deploy_steps true = [SScp; SLaunch].
+Proof. exact deploy_steps_shape. Qed.
+
+(* The chmod step is what makes it true: without it a generated binary uploaded as a new file never
+   starts (whatever the umasks), while a copy of the running program does - which is why a
+   same-platform deployment cannot show a missing chmod. *)
+Theorem C19_chmod_needed : forall (root : bool) (self_mode bumask rumask : N),
+  w_started (run_steps false root (staged_mode (choose_staging false) self_mode bumask) rumask
+                       (mkWorld None None) [SScp; SLaunch]) = Some false.
+Proof. exact chmod_needed. Qed.
+
+Theorem C19_copyself_hides_chmod : forall (root : bool) (self_mode bumask rumask : N),
+  N.testbit self_mode 6 = true -> N.testbit rumask 6 = false ->
+  w_started (run_steps false root (staged_mode (choose_staging true) self_mode bumask) rumask
+                       (mkWorld None None) [SScp; SLaunch]) = Some true.
+Proof. exact copyself_hides_chmod. Qed.
+
+Example C19_example_deploy :
+  deploy_trace false false true 493 18 18 None =
+    (420, [(SScp, mkWorld (Some 420) None); (SChmod, mkWorld (Some 493) None); (SLaunch, mkWorld (Some 493) (Some true))]) /\
+  deploy_trace false true true 493 18 18 None =
+    (493, [(SScp, mkWorld (Some 493) None); (SChmod, mkWorld (Some 493) None); (SLaunch, mkWorld (Some 493) (Some true))]) /\
+  deploy_trace true false true 493 18 18 None =
+    (420, [(SScp, mkWorld (Some 420) None); (SLaunch, mkWorld (Some 420) (Some true))]).
+Proof. exact deploy_example. Qed.
+
 Print Assumptions C19_no_panic.
 Print Assumptions C19_elf_roundtrip.
 Print Assumptions C19_pe_roundtrip.
 Print Assumptions C19_pe_sections.
 Print Assumptions C19_no_panic_refuted.
+Print Assumptions C19_deployed_file_executable.
+Print Assumptions C19_chmod_needed.
